@@ -67,15 +67,12 @@ func RunSet(id string, opts GlobalOptions) error {
 			return err
 		}
 		agentID := opts.AgentID
-		if err := applySetUpdates(dir, opts, id, updates, agentID, opts.JSON); err != nil {
+		graph, err := applySetUpdates(dir, opts, id, updates, agentID, opts.JSON)
+		if err != nil {
 			return err
 		}
 
 		if opts.JSON {
-			graph, err := loadGraph(dir)
-			if err != nil {
-				return err
-			}
 			task := graph.Tasks[id]
 			if task == nil {
 				return fmt.Errorf("unknown task id %s", id)
@@ -136,15 +133,12 @@ func RunSet(id string, opts GlobalOptions) error {
 			return err
 		}
 		agentID := opts.AgentID
-		if err := applySetUpdates(dir, opts, id, updates, agentID, opts.JSON); err != nil {
+		graph, err := applySetUpdates(dir, opts, id, updates, agentID, opts.JSON)
+		if err != nil {
 			return err
 		}
 
 		if opts.JSON {
-			graph, err := loadGraph(dir)
-			if err != nil {
-				return err
-			}
 			task := graph.Tasks[id]
 			if task == nil {
 				return fmt.Errorf("unknown task id %s", id)
@@ -192,15 +186,12 @@ func RunSet(id string, opts GlobalOptions) error {
 	}
 
 	agentID := opts.AgentID
-	if err := applySetUpdates(dir, opts, id, updates, agentID, opts.JSON); err != nil {
+	graph, err := applySetUpdates(dir, opts, id, updates, agentID, opts.JSON)
+	if err != nil {
 		return err
 	}
 
 	if opts.JSON {
-		graph, err := loadGraph(dir)
-		if err != nil {
-			return err
-		}
 		task := graph.Tasks[id]
 		if task == nil {
 			return fmt.Errorf("unknown task id %s", id)
@@ -236,11 +227,7 @@ func RunClaim(id string, opts GlobalOptions) error {
 	if err != nil {
 		return err
 	}
-	if err := applySetUpdates(dir, opts, id, updates, agentID, true); err != nil {
-		return err
-	}
-
-	graph, err := loadGraph(dir)
+	graph, err := applySetUpdates(dir, opts, id, updates, agentID, true)
 	if err != nil {
 		return err
 	}
@@ -394,7 +381,9 @@ func buildUpdatedFields(input *TaskInput) []string {
 	return fields
 }
 
-func applySetUpdates(dir string, opts GlobalOptions, id string, updates map[string]string, agentID string, quiet bool) error {
+// applySetUpdates returns the graph as the command left it, read back under the same lock, so
+// that what the caller reports cannot be changed (or removed) by a concurrent writer.
+func applySetUpdates(dir string, opts GlobalOptions, id string, updates map[string]string, agentID string, quiet bool) (*Graph, error) {
 	lockPath := filepath.Join(dir, "lock")
 	eventsPath := getEventsPath(dir)
 	repoDir := filepath.Dir(dir)
@@ -402,11 +391,12 @@ func applySetUpdates(dir string, opts GlobalOptions, id string, updates map[stri
 	// result.path + result.summary must come together
 	updates, hasPath, resultSummary, resultPath, err := splitResultUpdates(updates)
 	if err != nil {
-		return err
+		return nil, err
 	}
 
 	// One lock section for the whole command: a refused field leaves nothing behind.
-	return withLock(lockPath, syscall.LOCK_EX, func() error {
+	var after *Graph
+	err = withLock(lockPath, syscall.LOCK_EX, func() error {
 		graph, err := loadGraph(dir)
 		if err != nil {
 			return err
@@ -432,8 +422,13 @@ func applySetUpdates(dir string, opts GlobalOptions, id string, updates map[stri
 		if !quiet {
 			fmt.Println(id)
 		}
-		return nil
+		after, err = loadGraph(dir)
+		return err
 	})
+	if err != nil {
+		return nil, err
+	}
+	return after, nil
 }
 
 // buildUpdateEvents validates a result attachment and/or field updates for task against
